@@ -307,6 +307,66 @@ def unit_coarse(ctx):
 
 
 
+def unit_reuse(ctx):
+    """Non-initial states: a tool is evaluated on a field, the field's values are then changed IN PLACE (reversed,
+    overwritten with a uniform field, one component flipped, written through field.array[...] or numpy's out=), and the
+    tool is evaluated again on the same object: the answer must be the one for the values the field holds now (what a
+    fresh field with these values gives)."""
+    tool = ctx.choose("tool", ["charge-continuous", "charge-berg-luescher", "angles", "bps"])
+    change = ctx.choose("change", ["array[...] = -array", "np.negative(array, out=array)", "array[...] = uniform",
+                                   "array[..., 0] *= -1", "array = -array (setter)", "nothing"])
+    first = ctx.choose("first-use", ["same-tool", "orientation", "nothing"])
+    if tool.startswith("charge"):
+        n, cell = (20, 14), (1.0, 2.0)
+        arr0 = skyrmion(n, 1, np.pi / 2, 1)
+        mk = lambda a: field2d(n, cell, (0.0, 0.0), a, np.ones(n, dtype=bool))  # noqa: E731
+        run = lambda fld: float(dft.topological_charge(fld, method=tool.split("-", 1)[1]))  # noqa: E731
+    elif tool == "angles":
+        n = (3, 2, 4)
+        arr0 = _angle_field("generic", n, 0)
+        mesh = df.Mesh(p1=(0, 0, 0), p2=(3.0, 2.0, 4.0), n=n)
+        mk = lambda a: df.Field(mesh, nvdim=3, value=a)  # noqa: E731
+        run = lambda fld: np.asarray(dft.neighbouring_cell_angle(fld, "z").array)  # noqa: E731
+    else:
+        n = (8, 8, 8)
+        ax = [np.arange(k) + 0.5 - k / 2 for k in n]
+        P = np.stack(np.meshgrid(*ax, indexing="ij"), axis=-1)
+        arr0 = P / np.linalg.norm(P, axis=-1, keepdims=True)
+        mesh = df.Mesh(p1=(0, 0, 0), p2=(8.0, 8.0, 8.0), n=n)
+        mk = lambda a: df.Field(mesh, nvdim=3, value=a)  # noqa: E731
+
+        def run(fld):
+            r = dft.count_bps(fld, "x")
+            return (float(r["bp_number"]), float(r["bp_number_tt"]), float(r["bp_number_hh"]))
+    f = mk(arr0.copy())
+    inst = ctx.key()
+    ctx.step(1, f"first use: {first}")
+    if first == "same-tool":
+        run(f)
+    elif first == "orientation":
+        f.orientation, f.norm
+    if change == "array[...] = -array":
+        f.array[...] = -f.array
+    elif change == "np.negative(array, out=array)":
+        np.negative(f.array, out=f.array)
+    elif change == "array[...] = uniform":
+        f.array[...] = (0.0, 0.6, 0.8)
+    elif change == "array[..., 0] *= -1":
+        f.array[..., 0] *= -1.0
+    elif change == "array = -array (setter)":
+        f.array = -f.array
+    ctx.step(2, f"{change}; {tool} again; {tool} on a fresh field with the current values")
+    again = run(f)
+    ref = run(mk(np.array(f.array)))
+    ctx.observe(np.round(np.asarray(again, dtype=float), 9))
+    ctx.check()
+    if not np.allclose(np.asarray(again, dtype=float), np.asarray(ref, dtype=float), rtol=0, atol=1e-12, equal_nan=True):
+        ctx.fail(f"{tool.split('-')[0]}/reuse/answer-belongs-to-earlier-values",
+                 f"after '{change}' (first use: {first}): {np.asarray(again).ravel()[:4].tolist()} but a fresh field with the same "
+                 f"values gives {np.asarray(ref).ravel()[:4].tolist()}", instance=inst)
+
+
+
 UNIFORM = [(0, 0, 1), (0, 0, -1), (1, 0, 0), (0, 1, 0), (1, 1, 0), (1, 2, 3), (-2e5, 1e5, 0.5e5)]
 
 
@@ -411,8 +471,17 @@ def unit_angles(ctx):
     pattern = ctx.choose("pattern", ["coded", "parallel", "antiparallel", "generic", "slow-spiral", "slow-spiral-fine",
                                      "near-antiparallel"])
     un = ctx.choose("units", ["rad", "deg"])
-    origin = (0.3 * cell[0], -1.0 * cell[1], 5.0 * cell[2])
-    p2 = tuple(o + k * c for o, k, c in zip(origin, n, cell))
+    corners = ctx.choose("corners", ["float", "int-typed", "int-typed-negative-half-cells"] if pattern in ("coded", "generic") else ["float"])
+    if corners == "float":
+        origin = (0.3 * cell[0], -1.0 * cell[1], 5.0 * cell[2])
+        p2 = tuple(o + k * c for o, k, c in zip(origin, n, cell))
+    elif corners == "int-typed":
+        origin = (0, 0, 0)                    # Python ints, unit cells: half a cell is not an integer
+        p2 = tuple(int(k) for k in n)
+    else:
+        origin = (-3, -1, 2)                  # negative integer corner, cells of 0.5
+        p2 = tuple(int(o + k) for o, k in zip(origin, n))
+        n = tuple(2 * k for k in n)
     mesh = df.Mesh(region=df.Region(p1=origin, p2=p2, dims=dims), n=n)
     arr = _angle_field(pattern, n, d)
     f = df.Field(mesh, nvdim=3, value=arr)
@@ -436,6 +505,15 @@ def unit_angles(ctx):
         ctx.fail("neighbouring_cell_angle/mesh-not-one-cell-shorter",
                  f"result counts {res.mesh.n.tolist()}, array {got.shape}; expected {nexp}", instance=inst)
         return
+    inside = all(float(res.mesh.region.pmin[a]) >= float(mesh.region.pmin[a]) - 1e-9 * mesh.cell[a]
+                 and float(res.mesh.region.pmax[a]) <= float(mesh.region.pmax[a]) + 1e-9 * mesh.cell[a] for a in range(3))
+    ctx.check()
+    if not inside:
+        ctx.fail("neighbouring_cell_angle/result-mesh-reaches-outside-the-field", f"{res.mesh.region.pmin.tolist()} .. "
+                 f"{res.mesh.region.pmax.tolist()} for a field on {mesh.region.pmin.tolist()} .. {mesh.region.pmax.tolist()}",
+                 instance=inst)
+    ctx.note("angle-mesh:" + ("centred-between-the-cell-pairs" if abs(float(res.mesh.region.center[d]) - float(mesh.region.center[d]))
+                              <= 1e-9 * mesh.cell[d] else "not-centred(not-demanded)"))
     if any(abs(res.mesh.cell[a] - mesh.cell[a]) > 1e-9 * mesh.cell[a] for a in range(3)):
         ctx.fail("neighbouring_cell_angle/cell-changed", f"cell {res.mesh.cell.tolist()} vs {mesh.cell.tolist()}",
                  instance=ctx.key())
@@ -609,6 +687,7 @@ def units(tier):
     return [
         {"name": "charge", "fn": unit_charge, "bound": None},
         {"name": "coarse", "fn": unit_coarse, "bound": None},
+        {"name": "reuse", "fn": unit_reuse, "bound": None},
         {"name": "uniform", "fn": unit_uniform, "bound": None},
         {"name": "bps", "fn": unit_bps, "bound": None},
         {"name": "angles", "fn": unit_angles, "bound": None},
